@@ -69,7 +69,7 @@ fn exchange_to_redirect(cx: &mut Ctx, h: &Hop) -> bool {
     let res = cx.op(&format!("resp {}", hx(&head)));
     let p: Vec<&str> = res.split(' ').collect();
     if p[0] != "resp" { return false; }
-    let used: usize = p[1].parse().unwrap();
+    let used: usize = p[1].parse().unwrap_or(0);
     cx.op("proceed");
     if cx.rec.state() == "recvBody" {
         cx.op(&format!("bread {} 100", hx(&head[used..])));
@@ -140,6 +140,38 @@ pub fn c13(cx: &mut Ctx) {
                         cx.op("proceed");
                         cx.op("write 65536");
                     }
+                }
+            }
+        }
+    }
+    // the caller gives the redirected flow fresh credentials / cookies of its own: the inherited ones stay suppressed
+    for t1 in ["http://b.test/t", "https://a.test/t", "/same"] {
+        for policy in ["never", "samehost"] {
+            for depth in [1usize, 2] {
+                for which in 0..4usize {
+                    cx.case("readd");
+                    if cx.rec.new_flow(&format!("POST HTTP/1.1 http://a.test/o {}", super::hdrs(&[("authorization", b"Basic b2xk"), ("cookie", b"a_session=old"), ("content-length", b"5"), ("x-keep", b"1")]))) != "ok" { continue; }
+                    let mut ok = true;
+                    for d in 0..depth {
+                        let t = if d == 0 { t1 } else { "/second" };
+                        cx.op("proceed"); cx.op("write 65536"); cx.op("proceed");
+                        if cx.rec.state() == "sendBody" { cx.op("bwrite 6162636465 100"); cx.op("proceed"); }
+                        let head = format!("HTTP/1.1 303 R\r\nLocation: {}\r\nContent-Length: 0\r\n\r\n", t);
+                        cx.op(&format!("resp {}", hx(head.as_bytes())));
+                        cx.op("proceed");
+                        if cx.rec.state() != "redirect" { ok = false; break; }
+                        if !cx.op(&format!("follow {}", policy)).starts_with("flow ") { ok = false; break; }
+                    }
+                    if !ok { continue; }
+                    match which {
+                        0 => { cx.op(&format!("hdr cookie {}", hx(b"b_session=new"))); }
+                        1 => { cx.op(&format!("hdr authorization {}", hx(b"Basic bmV3"))); }
+                        2 => { cx.op(&format!("hdr content-length {}", hx(b"3"))); cx.op("despite"); }
+                        _ => { cx.op(&format!("hdr cookie {}", hx(b"c=1"))); cx.op(&format!("hdr authorization {}", hx(b"Bearer t"))); cx.op(&format!("hdr x-keep {}", hx(b"2"))); }
+                    }
+                    cx.op("proceed");
+                    cx.op("write 65536");
+                    cx.op("canproceed");
                 }
             }
         }
